@@ -145,6 +145,8 @@ func init() {
 			{Name: "long", TShards: 4, Run: c04Long},
 			{Name: "sizes", TShards: 6, Run: c04Sizes},
 			{Name: "prefixes", Run: prefixUnit("bed", false, 0)},
+			{Name: "edges", Run: edgeUnit("bed")},
+			{Name: "fieldlens", TShards: 2, Run: lengthUnit("bed")},
 		},
 	})
 }
